@@ -32,6 +32,22 @@ type Case struct {
 	Unit vkit.B `json:"unit,omitempty"`
 	Text vkit.B `json:"text,omitempty"`
 	Rule int    `json:"rule,omitempty"`
+	// Marshal: settings that belong to marshalling and to the JSON object form, none of which is an input of text parsing or of
+	// New/Bytes: bit 0 DisableMarshalTextUnit, bit 1 DisableMarshalJSONStringForm, bit 2 DisableMarshalJSONObjectForm, bit 3 MaxObjectKeys = 1.
+	Marshal int `json:"marshal_settings,omitempty"`
+}
+
+func configureMarshal(m int) func() {
+	a, b, c, d := size.DisableMarshalTextUnit, size.DisableMarshalJSONStringForm, size.DisableMarshalJSONObjectForm, size.MaxObjectKeys
+	if m != 0 {
+		size.DisableMarshalTextUnit, size.DisableMarshalJSONStringForm, size.DisableMarshalJSONObjectForm = m&1 != 0, m&2 != 0, m&4 != 0
+		if m&8 != 0 {
+			size.MaxObjectKeys = 1
+		}
+	}
+	return func() {
+		size.DisableMarshalTextUnit, size.DisableMarshalJSONStringForm, size.DisableMarshalJSONObjectForm, size.MaxObjectKeys = a, b, c, d
+	}
 }
 
 type (
@@ -366,6 +382,7 @@ func TestCheck(t *testing.T) {
 		if err := r.LoadReplay(&c); err != nil {
 			t.Fatalf("replay: %v", err)
 		}
+		defer configureMarshal(c.Marshal)()
 		r.Serial(func(w *vkit.W) { judge(c, w); w.Eval(true) })
 		return
 	}
@@ -472,26 +489,6 @@ func TestCheck(t *testing.T) {
 	})
 
 	// Phase D: constraint helpers for derived types
-	r.Phase("D: constraint.Max/Min/SizeBits/SizeBytes/IsSigned/IsFloat for base and derived types", func() {
-		r.Serial(func(w *vkit.W) {
-			chk := func(name string, ok bool) {
-				w.Eval(true)
-				if !ok {
-					w.Fail(map[string]string{"constraint": name}, "constraint-helper", name+" is wrong")
-				}
-			}
-			chk("Max[MyI8]", constraint.Max[MyI8]() == 127 && constraint.Min[MyI8]() == -128 && constraint.SizeBits[MyI8]() == 8 && constraint.IsSigned[MyI8]() && !constraint.IsFloat[MyI8]())
-			chk("Max[MyU8]", constraint.Max[MyU8]() == 255 && constraint.Min[MyU8]() == 0 && constraint.SizeBytes[MyU8]() == 1 && !constraint.IsSigned[MyU8]())
-			chk("Max[MyU16]", constraint.Max[MyU16]() == 65535 && constraint.SizeBits[MyU16]() == 16)
-			chk("Max[MyU64]", constraint.Max[MyU64]() == math.MaxUint64 && constraint.SizeBytes[MyU64]() == 8 && !constraint.IsSigned[MyU64]() && !constraint.IsFloat[MyU64]())
-			chk("Max[MyI64]", constraint.Max[MyI64]() == math.MaxInt64 && constraint.Min[MyI64]() == math.MinInt64 && constraint.IsSigned[MyI64]())
-			chk("Max[MyInt]", constraint.Max[MyInt]() == math.MaxInt && constraint.Min[MyInt]() == math.MinInt && constraint.SizeBits[MyInt]() == strconv.IntSize)
-			chk("Max[MyF32]", constraint.Max[MyF32]() == math.MaxFloat32 && constraint.Min[MyF32]() == -math.MaxFloat32 && constraint.IsFloat[MyF32]() && constraint.IsSigned[MyF32]() && constraint.SizeBits[MyF32]() == 32 && constraint.SmallestNonzero[MyF32]() == math.SmallestNonzeroFloat32)
-			chk("Max[MyF64]", constraint.Max[MyF64]() == math.MaxFloat64 && constraint.Min[MyF64]() == -math.MaxFloat64 && constraint.IsFloat[MyF64]() && constraint.SizeBytes[MyF64]() == 8 && constraint.SmallestNonzero[MyF64]() == math.SmallestNonzeroFloat64)
-			chk("Max[uint32]", constraint.Max[uint32]() == math.MaxUint32 && constraint.Max[int16]() == math.MaxInt16 && constraint.Min[int32]() == math.MinInt32 && constraint.SmallestNonzero[MyU8]() == 1)
-		})
-	})
-
 	// Phase D2: Size.UnmarshalText honours RuleDisableUnit of DefaultRule (a package setting): boundary numbers without unit.
 	r.Phase("D2: UnmarshalText under DefaultRule with RuleDisableUnit: numbers around 2^64 and texts with units", func() {
 		old := size.DefaultRule
@@ -581,6 +578,85 @@ func TestCheck(t *testing.T) {
 					judge(Case{Kind: "new", Type: typ, Bits: 0, Unit: vkit.B(text)}, w)
 					w.EvalRandom(vkit.Hash64("Wn", text, typ), true)
 				}
+			}
+		})
+	})
+
+	r.Phase("S: texts, New and Bytes under every setting of the marshalling switches and MaxObjectKeys = 1 (none of them is an input of parsing or arithmetic)", func() {
+		texts := []string{"0", "7B", "1kB", "1 kB", "15 EiB", "16 EiB", "0 ZB", "1 ZB", "1 000 KiB", "1_024", "18446744073709551615", "18446744073709551616", "18014398509481983 KiB", "18014398509481984 KiB", " 2 MB ", "3\u00a0GiB", "1 xB", "kB", "", "-1", "1.5kB", "9 PB"}
+		for m := 1; m < 16; m++ {
+			restore := configureMarshal(m)
+			r.Serial(func(w *vkit.W) {
+				for _, text := range texts {
+					for _, rule := range []int{0, 1} {
+						judge(Case{Kind: "text", Text: vkit.B(text), Rule: rule, Marshal: m}, w)
+						w.EvalRandom(vkit.Hash64("S", text, strconv.Itoa(rule), strconv.Itoa(m)), true)
+					}
+				}
+				for _, typ := range []string{"uint64", "float64", "int8", "MyU16"} {
+					for _, u := range []string{"", "B", "kB", "EiB", "ZB", "xB"} {
+						for _, bits := range []uint64{0, 1, 18} {
+							judge(Case{Kind: "new", Type: typ, Bits: bits, Unit: vkit.B(u), Marshal: m}, w)
+							w.EvalRandom(vkit.Hash64("Sn", typ, u, strconv.Itoa(int(bits)), strconv.Itoa(m)), true)
+						}
+					}
+				}
+			})
+			restore()
+		}
+	})
+
+	r.Phase("R: runes that fold, truncate (low byte) or widen to a digit, a separator or a unit letter, inserted and substituted at every position of valid texts", func() {
+		runes := ref.ConfusableRunes("0123456789 _kMGTPEZYiB\xa0")
+		bases := []string{"12", "1 000 kB", "7 EiB", "1_0 KiB", "5", "1\u00a0000\u00a0B", "20MB"}
+		r.Parallel(int64(len(runes)), 8, func(w *vkit.W, lo, hi int64) {
+			for i := lo; i < hi; i++ {
+				rs := string(runes[i])
+				for _, base := range bases {
+					for pos := 0; pos <= len(base); pos++ {
+						if pos < len(base) && base[pos] >= 0x80 && base[pos] < 0xC0 {
+							continue // not inside a multi-byte character of the base
+						}
+						texts := []string{base[:pos] + rs + base[pos:]}
+						if pos < len(base) && base[pos] < 0x80 {
+							texts = append(texts, base[:pos]+rs+base[pos+1:])
+						}
+						for _, text := range texts {
+							for _, rule := range []int{0, 1} {
+								judge(Case{Kind: "text", Text: vkit.B(text), Rule: rule}, w)
+								w.EvalRandom(vkit.Hash64("R", text, strconv.Itoa(rule)), true)
+							}
+						}
+					}
+				}
+			}
+		})
+	})
+
+	r.Phase("W3: a text parsed, then N distinct other texts (N = 1..200000 on a ladder around powers of two), then the same text again", func() {
+		r.Serial(func(w *vkit.W) {
+			filler := 0
+			for li, n := range []int{1, 2, 3, 31, 32, 33, 63, 64, 65, 127, 128, 129, 255, 256, 257, 511, 512, 513, 1023, 1024, 1025, 2047, 2048, 2049, 4096, 8192, 65536, 200000} {
+				x := strconv.Itoa(1000+li) + " " + ref.Units[1+li%12]
+				y := "1_" + strconv.Itoa(100+n%900) + "KiB"
+				for _, rule := range []int{0, 1} {
+					judge(Case{Kind: "text", Text: vkit.B(x), Rule: rule}, w)
+					judge(Case{Kind: "text", Text: vkit.B(y), Rule: rule}, w)
+				}
+				for k := 0; k < n; k++ {
+					filler++
+					t := strconv.Itoa(filler) + ref.Units[filler%7]
+					if filler%2 == 0 {
+						_, _ = size.DefaultParser(t, 0)
+					} else {
+						_, _ = size.DefaultParser([]byte(t), size.RuleDisableUnit)
+					}
+				}
+				for _, rule := range []int{0, 1} {
+					judge(Case{Kind: "text", Text: vkit.B(x), Rule: rule}, w)
+					judge(Case{Kind: "text", Text: vkit.B(y), Rule: rule}, w)
+				}
+				w.EvalRandom(vkit.Hash64("W3", x), true)
 			}
 		})
 	})
